@@ -44,6 +44,7 @@ type HarnessCfg struct {
 }
 
 type CheckCfg struct {
+	NativeRace bool        `json:"native_race"` // native replays are built with the Go race detector
 	Title     string       `json:"title"`
 	Harnesses []HarnessCfg `json:"harnesses"`
 	Outside   []string     `json:"outside"`
@@ -613,13 +614,28 @@ func nativeReplay(pkg string, files []string, cc *CheckCfg) (map[string]nativeRe
 	if pkg != "" && pkg != "root" {
 		pname = filepath.Base(pkg)
 	}
-	fmt.Fprintf(&sb, "//go:build verif\n\npackage %s\n\nimport (\n\t\"encoding/json\"\n\t\"fmt\"\n\t\"os\"\n\t\"testing\"\n\n\tvrt \"%s/internal/zz_verifrt\"\n)\n\n", pname, modPath)
+	fmt.Fprintf(&sb, "//go:build verif\n\npackage %s\n\nimport (\n\t\"encoding/json\"\n\t\"fmt\"\n\t\"os\"\n\t\"path/filepath\"\n\t\"testing\"\n\n\tvrt \"%s/internal/zz_verifrt\"\n)\n\n", pname, modPath)
 	sb.WriteString("var verifHarnessTable = map[string]func(){\n")
 	for _, n := range names {
 		fmt.Fprintf(&sb, "\t%q: %s,\n", n, n)
 	}
 	sb.WriteString("}\n\n")
-	sb.WriteString(`func TestVerifReplay(t *testing.T) {
+	sb.WriteString(`func verifRaceLogSize() int64 {
+	p := os.Getenv("VERIF_RACE_LOG")
+	if p == "" {
+		return 0
+	}
+	var n int64
+	ms, _ := filepath.Glob(p + "*")
+	for _, m := range ms {
+		if fi, err := os.Stat(m); err == nil {
+			n += fi.Size()
+		}
+	}
+	return n
+}
+
+func TestVerifReplay(t *testing.T) {
 	b, err := os.ReadFile(os.Getenv("VERIF_REPLAY_LIST"))
 	if err != nil {
 		t.Fatal(err)
@@ -643,7 +659,11 @@ func nativeReplay(pkg string, files []string, cc *CheckCfg) (map[string]nativeRe
 			res["panic"] = "unknown harness " + doc.Harness
 		} else {
 			os.Setenv("VERIF_REPLAY", f)
+			before := verifRaceLogSize()
 			failures, skipped, p := vrt.Run(h)
+			if verifRaceLogSize() > before {
+				failures = append(failures, "data race reported by the Go race detector")
+			}
 			res["failures"] = failures
 			res["skipped"] = skipped
 			if p != nil {
@@ -668,9 +688,21 @@ func nativeReplay(pkg string, files []string, cc *CheckCfg) (map[string]nativeRe
 	listFile := filepath.Join(work, "list_"+pname+".json")
 	os.WriteFile(listFile, lb, 0o644)
 
-	cmd := exec.Command("go", "test", "-tags", "verif", "-vet=off", "-count=1", "-overlay", ovFile, "-run", "^TestVerifReplay$", "-v", "-timeout", "600s", ".")
+	goArgs := []string{"test", "-tags", "verif", "-vet=off", "-count=1", "-overlay", ovFile, "-run", "^TestVerifReplay$", "-v", "-timeout", "600s"}
+	raceLog := ""
+	if cc != nil && cc.NativeRace {
+		// the property speaks of data races: the native side runs under the
+		// Go race detector, whose reports go to a log the test watches
+		goArgs = append(goArgs, "-race")
+		raceLog = filepath.Join(work, "racelog")
+	}
+	goArgs = append(goArgs, ".")
+	cmd := exec.Command("go", goArgs...)
 	cmd.Dir = pkgDir(pkg)
 	cmd.Env = append(os.Environ(), "GOFLAGS=-mod=readonly", "GOPROXY=off", "GOSUMDB=off", "GOTOOLCHAIN=local", "VERIF_REPLAY_LIST="+listFile)
+	if raceLog != "" {
+		cmd.Env = append(cmd.Env, "VERIF_RACE_LOG="+raceLog, "GORACE=log_path="+raceLog+" halt_on_error=0")
+	}
 	var outb bytes.Buffer
 	cmd.Stdout = &outb
 	cmd.Stderr = &outb
@@ -742,7 +774,11 @@ func cmdReplay(args []string) int {
 		return 2
 	}
 	abs, _ := filepath.Abs(args[0])
-	out, err := nativeReplay(doc.Pkg, []string{abs}, nil)
+	var rcc *CheckCfg
+	if checks, err := loadChecks(); err == nil {
+		rcc = checks[doc.Property]
+	}
+	out, err := nativeReplay(doc.Pkg, []string{abs}, rcc)
 	if err != nil {
 		fmt.Fprintln(os.Stderr, "replay could not run:", err)
 		return 2
